@@ -314,6 +314,14 @@ pub fn packet(m: &MsgSpec, opt: Option<&OptSpec>) -> Packet<'static> {
     let mut p = if m.flags & 0x8000 != 0 { Packet::new_reply(m.id) } else { Packet::new_query(m.id) };
     use simple_dns::PacketFlag;
     p.set_flags(PacketFlag::from_bits_truncate(m.flags & !0x8000 & !0x0040));
+    let opcode = (m.flags >> 11) & 0xF;
+    if opcode != 0 {
+        *p.opcode_mut() = simple_dns::OPCODE::from(opcode);
+    }
+    let rcode = if m.ext_rcode != 0 { m.ext_rcode } else { m.flags & 0xF };
+    if rcode != 0 {
+        *p.rcode_mut() = simple_dns::RCODE::from(rcode);
+    }
     for q in &m.questions {
         p.questions.push(question(q));
     }
